@@ -72,12 +72,8 @@ func (flavor) Oracle(ops []lc.Op, obs []lc.StepObs) []core.Failure {
 			specLogger = i + 1
 		}
 		if o.DLogger != specLogger {
-			cls := "default-logger-differs"
-			if o.DLogger > 0 && o.DLogger <= len(obs) && loggerLeftBy(ops[o.DLogger-1], obs[o.DLogger-1]) {
-				cls = "default-logger-left-by-rejected-or-validated-config"
-			}
-			fails = append(fails, core.Failure{Class: cls,
-				What: fmt.Sprintf("op %d (%s → %s): caddy.Log() is the default logger set up for operation %d, the running configuration's is that of operation %d (0 = none / initial) — openLogs makes the new config's default log the process default before anything else is provisioned and nothing undoes it when the config is not used", i, op, o.Res, o.DLogger-1, specLogger-1)})
+			fails = append(fails, core.Failure{Class: "default-logger-differs",
+				What: fmt.Sprintf("op %d (%s → %s): caddy.Log() is the default logger set up for operation %d, expected that of operation %d (0 = none / initial): the last accepted configuration's — a config that is rejected or only validated must put the previous default logger back", i, op, o.Res, o.DLogger-1, specLogger-1)})
 		}
 		wantRaw := "null"
 		if running != nil {
@@ -152,22 +148,6 @@ func enteredRun(op lc.Op, o lc.StepObs, attempted *lc.Cfg) bool {
 		return true
 	}
 	if attempted == nil || (op.Kind != 'L' && op.Kind != 'P' && op.Kind != 'D') {
-		return false
-	}
-	switch o.Res {
-	case "ok", "same", "err:index", "err:decode", "err:path", "err:body":
-		return false
-	}
-	return true
-}
-
-// loggerLeftBy: operation (op, o) set up logging for a configuration that did not become the
-// running one — a dry run, or a load / change rejected after run() had been entered.
-func loggerLeftBy(op lc.Op, o lc.StepObs) bool {
-	if op.Kind == 'V' {
-		return true
-	}
-	if op.Kind != 'L' && op.Kind != 'P' && op.Kind != 'D' {
 		return false
 	}
 	switch o.Res {
